@@ -634,6 +634,10 @@ pub fn run(ctx: &Ctx) -> Result<Run, String> {
     frames(&mut stats);
     direct_encodings(&mut stats);
     super::sigshape::u2f_shapes(ctx.tier, &mut stats);
+    stats.case(&"after-conversion-panic", true, "after-user-code-panic");
+    for (k, d) in super::vault::after_conversion_panic(0) {
+        stats.finding(Finding::new(format!("after-panic/kind={k}"), d, json!({"after_conversion_panic": 0})));
+    }
     let depth = ctx.tier.pick(3, 6);
     let mut states = 0;
     let mut transitions = 0;
@@ -656,7 +660,7 @@ pub fn run(ctx: &Ctx) -> Result<Run, String> {
     let n = cs.len() as u64;
     let mut run = Run::from_stats(
         "model_checking",
-        "every 32-byte constant of the library sources (array-repeat expressions, string literals) as application and as challenge, all ordered pairs; signature shapes: for 3 fixed stored keys x 2 applications the smallest counter whose RFC 6979 signature falls into each DER shape class (r padded / not / shorter than 32 bytes x s full / shorter; quick 5 classes, thorough all 6) is searched with the harness's own signer and authenticated over three stores - success, byte-equality with the predicted signature, verification and raw encoding demanded; single register+authenticate+unknown-handle runs for every key-handle length 0..255 and the product challenge/application patterns(4x4, incl. equal) x counter {0,1,2^31,2^32-1} x presence x control byte {0x03, 0x07, 0x08} x further flag bits {none, UV} x user-verification capability of the token {configured, unconfigured, none} x {0, 3} CTAP2 assertions with the credential before the U2F authentication x {RefStore, Arc<Mutex<MemoryStore>>, Arc<Mutex<Option<Passkey>>>, a store that returns the COSE key members in reverse order} (unknown handles: the registered one plus a byte, minus a byte, with a changed byte, and the empty handle); response structs with certificate/handle/signature lengths the authenticator itself never produces encoded directly; every well-formed extended-length request frame (register, authenticate with P1 in {3,7,8} and every handle length, version; with and without trailing Le) parsed back; BFS over sequences of register(h in 2, app in 2) / authenticate(h in 2 + unknown, app in 2) on ONE authenticator instance over the contract store, Arc<Mutex<MemoryStore>> and the single-slot Arc<Mutex<Option<Passkey>>> (a handle whose credential was replaced is unknown again; one step deeper); the complete history tree to depth 4, histories merged on equal store content beyond that. Signatures are verified with p256 over the byte strings of the U2F raw-message specification; raw encodings are parsed by the harness",
+        "a store with its own item type whose conversion to a Passkey panics once during an authentication (unwind caught): the next authentication on the same authenticator succeeds; every 32-byte constant of the library sources (array-repeat expressions, string literals) as application and as challenge, all ordered pairs; signature shapes: for 3 fixed stored keys x 2 applications the smallest counter whose RFC 6979 signature falls into each DER shape class (r padded / not / shorter than 32 bytes x s full / shorter; quick 5 classes, thorough all 6) is searched with the harness's own signer and authenticated over three stores - success, byte-equality with the predicted signature, verification and raw encoding demanded; single register+authenticate+unknown-handle runs for every key-handle length 0..255 and the product challenge/application patterns(4x4, incl. equal) x counter {0,1,2^31,2^32-1} x presence x control byte {0x03, 0x07, 0x08} x further flag bits {none, UV} x user-verification capability of the token {configured, unconfigured, none} x {0, 3} CTAP2 assertions with the credential before the U2F authentication x {RefStore, Arc<Mutex<MemoryStore>>, Arc<Mutex<Option<Passkey>>>, a store that returns the COSE key members in reverse order} (unknown handles: the registered one plus a byte, minus a byte, with a changed byte, and the empty handle); response structs with certificate/handle/signature lengths the authenticator itself never produces encoded directly; every well-formed extended-length request frame (register, authenticate with P1 in {3,7,8} and every handle length, version; with and without trailing Le) parsed back; BFS over sequences of register(h in 2, app in 2) / authenticate(h in 2 + unknown, app in 2) on ONE authenticator instance over the contract store, Arc<Mutex<MemoryStore>> and the single-slot Arc<Mutex<Option<Passkey>>> (a handle whose credential was replaced is unknown again; one step deeper); the complete history tree to depth 4, histories merged on equal store content beyond that. Signatures are verified with p256 over the byte strings of the U2F raw-message specification; raw encodings are parsed by the harness",
         true,
         stats,
     );
@@ -668,6 +672,9 @@ pub fn run(ctx: &Ctx) -> Result<Run, String> {
 }
 
 pub fn replay(_ctx: &Ctx, case: &Value) -> Result<Vec<Finding>, String> {
+    if let Some(api) = case.get("after_conversion_panic").and_then(|a| a.as_u64()) {
+        return Ok(super::vault::after_conversion_panic(api as u8).into_iter().map(|(k, d)| Finding::new(format!("after-panic/kind={k}"), d, case.clone())).collect());
+    }
     if let Some(fs) = super::sigshape::replay(case) {
         return Ok(fs);
     }
